@@ -931,7 +931,16 @@ class Engine:
         return self.new_tuple([self.ev(x) for x in e.elts])
 
     def ev_List(self, e):
-        items = [self.ev(x) for x in e.elts]
+        elts = []
+        for x in e.elts:
+            # [429, *range(500, 505)]: a starred range with literal bounds is the list of its members
+            if (isinstance(x, ast.Starred) and isinstance(x.value, ast.Call) and isinstance(x.value.func, ast.Name) and x.value.func.id == "range" and not x.value.keywords
+                    and 1 <= len(x.value.args) <= 2 and all(isinstance(a, ast.Constant) and isinstance(a.value, int) for a in x.value.args)
+                    and len(range(*[a.value for a in x.value.args])) <= 64):
+                elts.extend(ast.Constant(v) for v in range(*[a.value for a in x.value.args]))
+            else:
+                elts.append(x)
+        items = [self.ev(x) for x in elts]
         if self.st.spec:
             return self.new_tuple(items)
         if items and all(i.ty in ("int", "real") and i.none is None for i in items) and any(i.ty == "real" for i in items):
@@ -1496,6 +1505,51 @@ class Engine:
                     out.append(x.name)
         return out
 
+    def ghost_updated_in(self, nodes):
+        """names of the contract's ghost state variables that executing these statements may update (conservative, syntactic)"""
+        all_g = list(self.c.d.get("ghost_state", {}))
+        if not all_g:
+            return []
+        out = []
+
+        def names_of(gu):
+            if not gu:
+                return []
+            return [gu[0]] if isinstance(gu[0], str) else [g[0] for g in gu]
+
+        for root in nodes:
+            for x in ast.walk(root):
+                if not isinstance(x, ast.Call):
+                    continue
+                d = self.bi.dotted(x.func)
+                if d is None:
+                    if isinstance(x.func, ast.Attribute) and x.func.attr in ("append", "extend", "get", "pop", "items", "keys", "values", "add", "update", "sort", "join", "format", "startswith", "endswith", "lower", "upper", "strip", "split"):
+                        continue
+                    return all_g
+                if d in self.c.externals:
+                    ext = self.c.externals[d]
+                    for g in names_of(ext.get("ghost_update")) + names_of(ext.get("ghost_set") and [ext["ghost_set"]]):
+                        out.append(g)
+                    for oc in ext.get("outcomes", []) or []:
+                        out.extend(names_of(oc.get("ghost_update")))
+                    continue
+                if d.startswith(self.bi.LOG_SINK_PREFIXES) or d in self.bi.LOG_SINK_NAMES:
+                    continue
+                if d in self.bi.PY_BUILTINS or d in self.bi.LIB_FUNCS or d in self.bi.SPEC_FUNCS:
+                    continue
+                last = d.rsplit(".", 1)[-1]
+                if last in ("append", "extend", "get", "pop", "items", "keys", "values", "add", "update", "sort", "join", "format", "startswith", "endswith", "lower", "upper", "strip", "split"):
+                    continue
+                if d in self.cur_mod.classes or self.bi.find_class(self, d)[0] is not None or d.split(".")[-1][:1].isupper():
+                    continue
+                byc = [c_ for q_, c_ in self.registry.items() if q_.rsplit(".", 1)[-1] == last]
+                if byc and d.split(".")[0] in ("self", "cls") and d.count(".") == 1:
+                    for c_ in byc:  # a method used BY CONTRACT: only what its contract declares
+                        out.extend(c_.d.get("ghost_modifies", []))
+                    continue
+                return all_g  # a repository function/method (inlined): may update any ghost variable through its own externals
+        return [g for g in all_g if g in out]
+
     def may_emit(self, nodes):
         """conservative syntactic test: can executing these statements append to the ghost trace?"""
         for root in nodes:
@@ -1599,6 +1653,12 @@ class Engine:
                 st.vars[nm] = self.symbolic(nm, ty)
             elif nm in spec.get("locals", {}) or nm in self.c.locals:
                 st.vars[nm] = self.symbolic(nm, parse_type(spec.get("locals", {}).get(nm) or self.c.locals[nm]))
+        # ghost state variables that an external (or callee) of the loop body may update are havocked as well: whatever is needed about them
+        # has to be in the invariant (without this only the first iteration would be checked against their entry values)
+        for gname in self.ghost_updated_in(n.body + ([n.test] if not is_for else [])):
+            gty_ = self.c.d.get("ghost_state", {}).get(gname)
+            if gname in st.vars and gty_ is not None:
+                st.vars[gname] = self.symbolic(gname.strip("$"), parse_type(gty_))
         st.nref = fresh("nref")
         st.pc.append(st.nref >= nentry)
         pre_heap = st.heap.copy()
